@@ -5,8 +5,11 @@ import Tahoe.Storage.ImmDirLemmas
 C28 — storage space reservations are honoured (property theorems only).
 Model: `allocate` / `allocLoop` / `allocatedSize` / `availableSpace` in `Tahoe/Storage/Immutable.lean`
 (`allocate_buckets`, `allocated_size`, `get_available_space`, `bucket_writer_closed`).
-`free` is what the disk reports at the call; `availableSpace s free = max(free − reserved_space, 0)`,
-and `0` on a read-only server.
+`free` is what the disk reports at the call (`freeBytes st = f_frsize × f_bavail` for a statvfs record
+`st`); `availableSpace s free = max(free − reserved_space, 0)`, and `0` on a read-only server.  The
+read-only repair (fixes/C28-readonly.diff) is in /repo; the `…_unfixed…` theorems describe the old code.
+Reachable-state theorems (`abort_always_releases`, `lost_connection_releases_space`) are over front-end
+histories `FOp` (direct calls, Foolscap allocations, connection losses, restarts).
 -/
 /-!
 ## Coverage of the statement (properties.jsonl C28)
